@@ -1,8 +1,11 @@
 import ObiVerif.Model.PEAlign
 import ObiVerif.Model.PEFillV
 import ObiVerif.Model.PEArena
+import ObiVerif.Model.PEFastArena
+import ObiVerif.Model.PECli
 import ObiVerif.Model.PEAnnot
 import ObiVerif.Driver.Util
+import ObiVerif.Spec.AlignSteps
 /-! line protocol for C08 (see `harness/c08.go` for the case-line grammar) -/
 namespace ObiVerif.Driver.C08
 open ObiVerif.PEAlign ObiVerif.Driver
@@ -121,6 +124,48 @@ def runFm (ws extra : List String) : String :=
     | _, _, _, _, _, _, _ => "bad-op"
   | _, _ => "bad-op"
 
+/-- the true path of reads cut from one fragment at offsets `a0`, `b0` (as the harness builds it) -/
+def truePath (a0 b0 la lb : Nat) : Option Path :=
+  let ov : Int := (min (a0 + la) (b0 + lb) : Nat) - (max a0 b0 : Nat)
+  if ov < 1 then none
+  else
+    let first : Path := if a0 < b0 then [-((b0 - a0 : Nat) : Int), ov] else [((a0 - b0 : Nat) : Int), ov]
+    let ea := a0 + la
+    let eb := b0 + lb
+    some (first ++ (if ea < eb then [((eb - ea : Nat) : Int), 0] else if ea > eb then [-((ea - eb : Nat) : Int), 0] else []))
+
+/-- `strictAlong` of the true path in the matrix of one scheme (the table of `fill`, = `Mf` by `table_getD`):
+the decidable uniqueness hypothesis of the error-free reassembly theorems, printed per case next to the
+harness's formulation "the independent DP counts one optimal path and the true path reaches the optimum" -/
+def strictTrue (s : Nat → Nat → Int) (cA cB : Nat → Int) (la lb : Nat) (tp : Path) : Bool :=
+  let t := (table s cA cB la lb).toArray.map (·.toArray)
+  let M := fun i j => ((t.getD j #[]).getD i ((0, 0) : Cell)).1
+  Align.strictAlong M s cA cB 0 0 (Align.stepsOf tp)
+
+/-- ` sa=<left><right>` for an exact-mode case that carries its fragment (`F=frag:a0:b0`) and whose reads are
+error-free copies with an overlap ≥ 1; empty otherwise -/
+def strictStr (ws : List String) (st : Settings) (s : Nat → Nat → Int) (g : Int) : String :=
+  match ws.drop 12 with
+  | [f] =>
+    if ¬ f.startsWith "F=" then "" else
+    match ((f.drop 2).toString).splitOn ":" with
+    | [fh, a0, b0] =>
+      match unhex fh, a0.toNat?, b0.toNat? with
+      | some fr, some a0, some b0 =>
+        let la := st.a.length
+        let lb := st.b.length
+        if a0 + la ≤ fr.length ∧ b0 + lb ≤ fr.length ∧ (fr.drop a0).take la = st.a ∧ (fr.drop b0).take lb = st.b then
+          match truePath a0 b0 la lb with
+          | some tp =>
+            let l := strictTrue s (cALeft g) (cBLeft g la) la lb tp
+            let r := strictTrue s (cARight g lb) (cBRight g) la lb tp
+            s!" sa={if l then 1 else 0}{if r then 1 else 0}"
+          | none => ""
+        else ""
+      | _, _, _ => ""
+    | _ => ""
+  | _ => ""
+
 def runPe (ws extra : List String) : String :=
   match parseSettings ws, extra with
   | some st, g :: adjh :: sc =>
@@ -141,7 +186,7 @@ def runPe (ws extra : List String) : String :=
       let r := if st.fast then (peAlignFastFromB s g la lb st.delta v.shift v.count (junkArenaB la lb)).map (·.1)
                else (peAlignExactB s g la lb (junkArenaB la lb)).map (·.1)
       match r with
-      | some r => s!"L={if r.isLeft then 1 else 0} sc={r.score} p={pathStr r.path} {vs} | {tailStr st (adjFn adjt) v r}"
+      | some r => s!"L={if r.isLeft then 1 else 0} sc={r.score} p={pathStr r.path} {vs} | {tailStr st (adjFn adjt) v r}{if st.fast then "" else strictStr ws st s g}"
       | none => "panic | panic"
     | _, _, _ => "bad-op"
   | _, _ => "bad-op"
@@ -178,6 +223,55 @@ def runBt (ws : List String) : String :=
     | _, _, _, _ => "bad-op"
   | _ => "bad-op"
 
+/-- op `fa`: `PEAlign` in fast mode on an arena with a history: the 4-mer index as the previous forward read
+`a0` left it, junk matrices, a path buffer of capacity `cap` full of stale values; prints the result, the
+vote and the path buffer as the call leaves it (`peAlignFastC`; `peAlignFastC_eq`: the result does not
+depend on any of it) -/
+def runFa (ws extra : List String) : String :=
+  match ws, extra with
+  | [rel, delta, _gi, _si, cp, a, qa, b, qb, a0], g :: sc =>
+    match rel.toNat?, delta.toNat?, cp.toNat?, unhex a, unhex qa, unhex b, unhex qb, unhex a0, g.toInt?, ints? sc with
+    | some rel, some delta, some cp, some a, some qa, some b, some qb, some a0, some g, some scl =>
+      let la := a.length
+      let lb := b.length
+      if la = 0 ∨ lb = 0 ∨ qa.length ≠ la ∨ qb.length ≠ lb ∨ scl.length ≠ la * lb ∨ rel > 1 then "bad-op" else
+      let arr := scl.toArray
+      let s := fun i j => arr.getD (i * lb + j) 0
+      let fa0 : FastArena := ⟨⟨junkArena la lb, Array.replicate cp 4242⟩, index4mer #[] (encode4mer a0), []⟩
+      match peAlignFastC s g (rel = 1) a b delta fa0 with
+      | some o =>
+        let v := o.vote
+        let fs := if v.num < 0 then "-1" else s!"{v.count}/{v.den}"
+        let bufS := if o.pathBuf.length = cp then (if cp = 0 then "-" else ",".intercalate (o.pathBuf.map toString)) else "grown"
+        s!"L={if o.res.isLeft then 1 else 0} sc={o.res.score} p={pathStr o.res.path} fc={v.count} ov={over la lb v.shift} fs={fs} left={o.shifts.length} buf={bufS}"
+      | none => "panic"
+    | _, _, _, _, _, _, _, _, _, _ => "bad-op"
+  | _, _ => "bad-op"
+
+/-- op `cl`: one pair through the `obipairing` command: `cl <argv tokens joined by ','> A QA B QB` -/
+def runCl (ws extra : List String) : String :=
+  match ws, extra with
+  | [toks, a, qa, b, qb], g :: adjh :: sc =>
+    match unhex a, unhex qa, unhex b, unhex qb, g.toInt?, unhex adjh, ints? sc with
+    | some a, some qa, some b, some qb, some g, some adjt, some scl =>
+      let la := a.length
+      let lb := b.length
+      if la = 0 ∨ lb = 0 ∨ qa.length ≠ la ∨ qb.length ≠ lb ∨ scl.length ≠ la * lb then "bad-op" else
+      if ¬ adjOK adjt then "adj-table-differs" else
+      match cliParse (if toks = "-" then [] else toks.splitOn ",") {} with
+      | none => "bad-op"
+      | some o =>
+        if o.idd = 0 then "bad-op" else
+        let arr := scl.toArray
+        let s := fun i j => arr.getD (i * lb + j) 0
+        match cliAssemble o s g (adjFn adjt) a qa b qb (junkArenaB la lb) with
+        | some (asm, ann) =>
+          let annS := ";".intercalate (ann.map fun e => e.1 ++ "=" ++ e.2)
+          s!"{if asm.alignment then "alignment" else "join"} s={hex asm.seq} q={hex asm.qual} ann={annS}"
+        | none => "panic"
+    | _, _, _, _, _, _, _ => "bad-op"
+  | _, _ => "bad-op"
+
 def run (line : String) : String :=
   match line.splitOn " | " with
   | [main] =>
@@ -189,6 +283,8 @@ def run (line : String) : String :=
     | "pe" :: ws => runPe ws (words extra)
     | "pl" :: ws => runPl ws (words extra)
     | "fm" :: ws => runFm ws (words extra)
+    | "fa" :: ws => runFa ws (words extra)
+    | "cl" :: ws => runCl ws (words extra)
     | ["cons", a, qa, b, qb, p] =>
       match unhex a, unhex qa, unhex b, unhex qb, parsePath p, unhex extra.trimAscii.toString with
       | some a, some qa, some b, some qb, some p, some adjt =>
